@@ -43,7 +43,9 @@ func TestMain(m *testing.M) {
 			"WebRTC-direct} on one UDP port in a generated order (one history in three: only tcp and QUIC(+WebTransport)), so that listen addresses share a thin waist with rests that are equal "+
 			"prefixes of each other (quic-v1 | quic-v1/webtransport) or DIFFER at an overlapping position (quic-v1 | webrtc-direct, ws | tls/ws), "+
 			"split over ListenAddresses / InterfaceListenAddresses (with duplicates and a bare /p2p-circuit); remote observers that share an IPv4 address (different ports), share an IPv6 /56 (different /64, /57) or "+
-			"differ only in bit 55; observed addresses that are public, private, loopback, NAT64 (both prefixes), relayed, of the other "+
+			"differ only in bit 55; the CONNECTION KIND of every connection drawn from {direct, relayed} (per history 0, 20, 50 or 100 % relayed): a relayed connection runs "+
+			"through the drawn remote as a relay, its remote address is <relay address>/p2p/<relay>/p2p-circuit, its local address the (listen or non-listen) address of the connection to the relay, "+
+			"and it is held to the same rules as a direct one with the relay's IPv4 address / IPv6 /56 as its observer group (so a relay and the peers behind it are ONE observer); observed addresses that are public, private, loopback, NAT64 (both prefixes), relayed, of the other "+
 			"transport, of the other IP family, not thin-waist, or nil; connections arriving at non-listen addresses. After EVERY event "+
 			"AddrsFor(every listen address), AddrsFor(every non-listen connection address), Addrs(0) and Addrs(k) are checked against "+
 			"group counts recomputed from the history; the listen addresses are asked in a generated order (each history draws 1-4 query plans, every "+
@@ -51,7 +53,7 @@ func TestMain(m *testing.M) {
 			"again after the pass, Addrs before or after the pass). Every answer must be an observed thin waist followed by exactly the rest of the listen address that was asked about, "+
 			"whatever was asked before; every non-empty answer is kept (the first 8 of a history plus a window of 24) and must still read the "+
 			"same at every later check point. Deterministic sweeps additionally walk every threshold 1..5 across the boundary "+
-			"for IPv4 and IPv6, build >3 qualifying addresses with ties, and (TestSharedWaistSweep) enumerate every >=2-member listen set on "+
+			"for IPv4 and IPv6 (with direct connections only, relayed only, and one relayed member per group), report every ineligible class on direct and on relayed connections, build >3 qualifying addresses with ties, and (TestSharedWaistSweep) enumerate every >=2-member listen set on "+
 			"one TCP / one UDP port x reporting member x every order of asking. "+
 			"NON-TRIVIAL = at some check point an observed address has a group count within +-1 of the threshold, or more than three "+
 			"addresses qualify for one local thin waist. DISTINCT = threshold + trajectory of the multiset of per-thin-waist group-count "+
@@ -59,6 +61,7 @@ func TestMain(m *testing.M) {
 		"the credited report of a connection is its latest ELIGIBLE one (DESIGN C17): a later ineligible report neither counts nor withdraws the earlier one",
 		"'transport inconsistent with the local address' is read at thin-waist level: different IP family or tcp/udp",
 		"close = the connection reports IsClosed() and the Disconnected notification is delivered in the same step",
+		"'relayed reports never count' is read as: the OBSERVED address contains /p2p-circuit; a plain observed address reported on a relayed connection (remote address contains /p2p-circuit) counts like any other report, its observer being the relay's IP (getObserver takes the IP the remote multiaddr starts with), and is withdrawn on change/close like any other",
 		"the set of listen addresses is fixed for the duration of a history; the fake network returns fresh slices like the real swarm",
 		"exactly min(3, #qualifying) addresses are expected per listen address (DESIGN: all qualifying ones when <= 3)",
 		"an address reported for a listen address = observed thin waist + that listen address's own rest (certhashes included); 'does not change because another listen address was asked' is judged by validating every repeated answer against the model (ties stay free), 'keeps its value' by comparing each returned multiaddr with a component-wise copy taken when it was returned",
@@ -158,6 +161,7 @@ type connSpec struct {
 	remote string // multiaddr text
 	group  string // observer group derived from the generated IP bytes: IPv4 address or first 56 bits of the IPv6 address
 	member int
+	via    string // "direct": remote is the observer's own address; "relayed": remote = <relay address>/p2p/<relay>/p2p-circuit, the observer is the relay's IP
 }
 
 type obsSpec struct {
@@ -309,7 +313,27 @@ func remoteOf(fam, g, m int) (ip string, port int, group string) {
 func mkConn(local laddr, g, m int) connSpec {
 	ip, port, group := remoteOf(local.fam, g, m)
 	r := canon(fmt.Sprintf("/ip%d/%s/%s/%d%s", local.fam, ip, local.proto, port, wireRest(local.rest)))
-	return connSpec{local: local, remote: r, group: group, member: m}
+	return connSpec{local: local, remote: r, group: group, member: m, via: "direct"}
+}
+
+// mkRelayedConn is a connection THROUGH the remote (g, m) acting as a relay: it runs over
+// our connection to that relay, so its local address is that connection's local address
+// (a listen address for QUIC / TCP with port reuse) and its remote address is the relay's
+// address followed by /p2p/<relay>/p2p-circuit (circuitv2 client.Conn.RemoteMultiaddr).
+// The observer that is counted is the relay's IP: same group as a direct connection from
+// that remote.
+func mkRelayedConn(local laddr, g, m int) connSpec {
+	c := mkConn(local, g, m)
+	c.remote = canon(c.remote + "/p2p/" + keys.Ed(10+m).ID.String() + "/p2p-circuit")
+	c.via = "relayed"
+	return c
+}
+
+func mkConnVia(local laddr, g, m int, relayed bool) connSpec {
+	if relayed {
+		return mkRelayedConn(local, g, m)
+	}
+	return mkConn(local, g, m)
 }
 
 // candidate external addresses (ip, port) per family: same IP with several ports
@@ -478,6 +502,36 @@ func (m *model) counts() (groups map[string]map[string]int, nconns map[string]ma
 		}
 	}
 	return groups, nconns
+}
+
+// viaCounts is bookkeeping for labels only: the group counts that the DIRECT connections
+// alone would give, and whether some observer group vouches for one address both on a
+// direct and on a relayed connection (the relay itself and a peer behind it).
+func (m *model) viaCounts() (direct map[string]map[string]int, mixed bool) {
+	type key struct{ local, obs, group string }
+	seen := map[key]map[string]bool{}
+	direct = map[string]map[string]int{}
+	for i, c := range m.conns {
+		if !c.open || c.credited == "" {
+			continue
+		}
+		cs := m.sc.conns[i]
+		k := key{cs.local.tw, c.credited, cs.group}
+		if seen[k] == nil {
+			seen[k] = map[string]bool{}
+		}
+		if cs.via == "direct" && !seen[k]["direct"] {
+			if direct[cs.local.tw] == nil {
+				direct[cs.local.tw] = map[string]int{}
+			}
+			direct[cs.local.tw][c.credited]++
+		}
+		seen[k][cs.via] = true
+		if len(seen[k]) > 1 {
+			mixed = true
+		}
+	}
+	return direct, mixed
 }
 
 func sortedKeys[V any](m map[string]V) []string {
@@ -757,6 +811,10 @@ func runScenario(sc *scenario) (out outcome, failure string) {
 	check := func(step int, q queryPlan) string {
 		groups, nconns := mod.counts()
 		// coverage bookkeeping
+		direct, mixedVia := mod.viaCounts()
+		if mixedVia {
+			out.labels["same-group:relayed+direct-conns"] = true
+		}
 		var state []string
 		for _, k := range sortedKeys(groups) {
 			var cs []int
@@ -776,6 +834,15 @@ func runScenario(sc *scenario) (out outcome, failure string) {
 				case c == sc.thresh+1:
 					out.labels["count==T+1"] = true
 					out.nontrivial = true
+				}
+				if d := direct[k][o]; d < c {
+					out.labels["relayed-conn:counted"] = true // some observer group vouches on relayed connections only
+					if c >= sc.thresh && d < sc.thresh {
+						out.labels["advertised:needs-relayed-conns"] = true
+					}
+					if c == sc.thresh-1 {
+						out.labels["relayed-conn:counted@T-1"] = true
+					}
 				}
 				if nconns[k][o] > c {
 					out.labels["same-group-several-conns"] = true
@@ -907,6 +974,10 @@ func runScenario(sc *scenario) (out outcome, failure string) {
 			elig := mod.eligible(cs, o.obs)
 			out.labels["op:"+o.tag] = true
 			out.labels["obs:"+o.obs.class] = true
+			out.labels["conn:"+cs.via] = true
+			if cs.via == "relayed" {
+				out.labels["relayed-conn:obs:"+o.obs.class] = true
+			}
 			if !elig && (o.obs.class == "public" || o.obs.class == "private") {
 				if !mod.listenTW[cs.local.tw] {
 					out.labels["obs:conn-not-at-listen-addr"] = true
@@ -926,10 +997,16 @@ func runScenario(sc *scenario) (out outcome, failure string) {
 			}
 		case opClose:
 			fc := getConn(o.conn)
-			out.trace = append(out.trace, fmt.Sprintf("%d: conn#%d closes (%s)", i, o.conn, o.tag))
+			out.trace = append(out.trace, fmt.Sprintf("%d: conn#%d[%s] closes (%s)", i, o.conn, sc.conns[o.conn].via, o.tag))
 			out.labels["op:"+o.tag] = true
 			if mc := mod.conn(o.conn); mc.open && mc.credited != "" {
 				out.labels["close:credited-conn"] = true
+				if cs := sc.conns[o.conn]; cs.via == "relayed" {
+					out.labels["close:credited-relayed-conn"] = true
+					if g, n := mod.counts(); g[cs.local.tw][mc.credited] == sc.thresh && n[cs.local.tw][mc.credited] == sc.thresh {
+						out.labels["close:credited-relayed-conn:falls-below-T"] = true
+					}
+				}
 			}
 			fc.closed.Store(true)
 			for _, nf := range fn.snapshot() {
@@ -1077,6 +1154,9 @@ func drawScenario(rt *rapid.T) *scenario {
 	nOK := rapid.IntRange(1, 8).Draw(rt, "candidateExternalAddrs")
 	spread := rapid.Bool().Draw(rt, "spreadObservations") // uniform over the candidates (many addresses) or biased to the first ones (many observers)
 	hotPct := rapid.SampledFrom([]int{5, 7, 9}).Draw(rt, "hotLocalShare")
+	// connection kind: share (in tenths) of the connections of this history that are RELAYED,
+	// i.e. run through the drawn remote as a relay (remote address .../p2p/<relay>/p2p-circuit)
+	relayShare := rapid.SampledFrom([]int{0, 0, 2, 2, 5, 10}).Draw(rt, "relayedConnShare")
 
 	drawObs := func(local laddr) obsSpec {
 		if rapid.IntRange(0, 99).Draw(rt, "obsClass") < 78 {
@@ -1150,7 +1230,9 @@ func drawScenario(rt *rapid.T) *scenario {
 		default:
 			local = sc.probes[rapid.IntRange(0, len(sc.probes)-1).Draw(rt, "nonListenLocal")]
 		}
-		c := mkConn(local, rapid.IntRange(0, nGroups-1).Draw(rt, "group"), rapid.IntRange(0, 2).Draw(rt, "member"))
+		g, mem := rapid.IntRange(0, nGroups-1).Draw(rt, "group"), rapid.IntRange(0, 2).Draw(rt, "member")
+		relayed := relayShare == 10 || relayShare > 0 && rapid.IntRange(0, 9).Draw(rt, "relayedConn") < relayShare
+		c := mkConnVia(local, g, mem, relayed)
 		sc.conns = append(sc.conns, c)
 		o := drawObs(local)
 		gen = append(gen, &genConn{open: true, last: o})
@@ -1257,13 +1339,16 @@ func sweepListen(fam int) (la []laddr, tcp, quic, wt laddr) {
 // TestBoundarySweep walks one external address across the threshold, for every
 // threshold 1..5, IPv4 and IPv6, TCP and QUIC+WebTransport: every group first sends a
 // second connection from the same group (must not count twice), connections are then
-// closed one by one (the first close of each group must not lower the count).
+// closed one by one (the first close of each group must not lower the count). Each walk
+// is done with direct connections only, with relayed connections only (every observer is
+// a relay) and with member 1 of every group relayed (a relay and peers behind it).
 func TestBoundarySweep(t *testing.T) {
 	name := t.Name()
 	idx := 0
 	for _, fam := range []int{4, 6} {
 		for thresh := 1; thresh <= 5; thresh++ {
-			for variant := 0; variant < 4; variant++ {
+			for variant := 0; variant < 12; variant++ {
+				via := variant / 4
 				idx++
 				if !hx.Mine(idx) {
 					continue
@@ -1274,14 +1359,14 @@ func TestBoundarySweep(t *testing.T) {
 					sc.ifa = la
 				}
 				locals := []laddr{tcp, tcp}
-				if variant >= 2 {
+				if variant%4 >= 2 {
 					locals = []laddr{quic, wt} // two transports on one thin waist pool their observers
 				}
 				target := okObs(fam, locals[0].proto, 0, wireRest(locals[0].rest))
 				nG := thresh + 1
 				for g := 0; g < nG; g++ {
 					for m := 0; m < 3; m++ {
-						sc.conns = append(sc.conns, mkConn(locals[(g+m)%2], g, m))
+						sc.conns = append(sc.conns, mkConnVia(locals[(g+m)%2], g, m, via == 1 || via == 2 && m == 1))
 						sc.ops = append(sc.ops, op{kind: opObserve, conn: len(sc.conns) - 1, obs: target, tag: "new-conn"})
 					}
 				}
@@ -1292,7 +1377,7 @@ func TestBoundarySweep(t *testing.T) {
 					}
 				}
 				out, failure := bubbleRun(t, sc)
-				stats.CaseEnumerated(name, out.nontrivial, out.labelList(fmt.Sprintf("fam:v%d", fam), fmt.Sprintf("T=%d", thresh))...)
+				stats.CaseEnumerated(name, out.nontrivial, out.labelList(fmt.Sprintf("fam:v%d", fam), fmt.Sprintf("T=%d", thresh), "via:"+[]string{"direct", "relayed", "member1-relayed"}[via])...)
 				if failure != "" {
 					t.Fatalf("fam=%d thresh=%d variant=%d: %s", fam, thresh, variant, failure)
 				}
@@ -1362,28 +1447,31 @@ func TestTopThreeSweep(t *testing.T) {
 
 // TestIneligibleSweep: every ineligible class, reported by threshold+1 distinct
 // observer groups, for every transport/family, must never be advertised; the same
-// groups then report an eligible address, which must appear.
+// groups then report an eligible address, which must appear. Everything once on direct
+// and once on relayed connections (a peer behind a relay normally reports a circuit
+// address = class "relayed"; nothing stops it from reporting any other class).
 func TestIneligibleSweep(t *testing.T) {
 	name := t.Name()
 	idx := 0
 	for _, fam := range []int{4, 6} {
 		for _, kind := range append(slices.Clone(badKinds), "non-listen-local") {
 			for thresh := 1; thresh <= 2; thresh++ {
-				for li := 0; li < 3; li++ {
+				for li := 0; li < 6; li++ {
 					idx++
 					if !hx.Mine(idx) {
 						continue
 					}
 					la, tcp, quic, wt := sweepListen(fam)
-					local := []laddr{tcp, quic, wt}[li]
+					local := []laddr{tcp, quic, wt}[li%3]
+					relayed := li >= 3
 					sc := &scenario{thresh: thresh, minObs: 1, la: la}
 					connLocal := local
 					if kind == "non-listen-local" {
-						connLocal = mkLaddr(fam, map[int]string{4: "192.168.1.10", 6: "fd00::10"}[fam], local.proto, 50000+li, local.rest)
+						connLocal = mkLaddr(fam, map[int]string{4: "192.168.1.10", 6: "fd00::10"}[fam], local.proto, 50000+li%3, local.rest)
 						sc.probes = []laddr{connLocal}
 					}
 					for g := 0; g <= thresh; g++ {
-						sc.conns = append(sc.conns, mkConn(connLocal, g, 0))
+						sc.conns = append(sc.conns, mkConnVia(connLocal, g, 0, relayed))
 						var o obsSpec
 						if kind == "non-listen-local" {
 							o = okObs(fam, local.proto, 0, wireRest(local.rest))
@@ -1404,9 +1492,9 @@ func TestIneligibleSweep(t *testing.T) {
 						sc.ops = append(sc.ops, op{kind: opObserve, conn: g, obs: good, tag: "observe-after-close"})
 					}
 					out, failure := bubbleRun(t, sc)
-					stats.CaseEnumerated(name, out.nontrivial, out.labelList(fmt.Sprintf("fam:v%d", fam), "class:"+kind)...)
+					stats.CaseEnumerated(name, out.nontrivial, out.labelList(fmt.Sprintf("fam:v%d", fam), "class:"+kind, map[bool]string{false: "via:direct", true: "via:relayed"}[relayed])...)
 					if failure != "" {
-						t.Fatalf("fam=%d kind=%s thresh=%d local=%s: %s", fam, kind, thresh, local.s, failure)
+						t.Fatalf("fam=%d kind=%s thresh=%d local=%s relayed=%v: %s", fam, kind, thresh, local.s, relayed, failure)
 					}
 				}
 			}
